@@ -158,8 +158,16 @@ def run_mc(tier):
 
 
 # --------------------------------------------------------------------------- suites
+_CFG_N = [0]
+
+
 def cfg_for(layout, kind, backend, cap=None, minseg=8, flavors=("sync", "unsync"), compare="C11"):
     unify, reserved, _ = LAYOUTS[layout]
+    if backend == "file":
+        # Options::with_unify is documented as ignored for file-backed arenas (they always use the unified layout): every
+        # other file-backed driver leaves the option at its default (false)
+        _CFG_N[0] += 1
+        unify = _CFG_N[0] % 2 == 0
     cap = cap if cap is not None else 96 + (31 if unify else 0) + reserved
     arenas = [[f, backend] for f in flavors]
     cfg = {"arenas": arenas, "cap": cap, "reserved": reserved, "kind": kind, "minseg": minseg,
@@ -271,6 +279,13 @@ def suite_ctl(mc_results, tier, seed):
         ops.append({"k": "truncate", "v": rng.randint(0, 2 * cap)})
         ops.append(AB(rng.choice([1, 8, 64])))
         drivers.append({"id": "trunc:%d" % i, "cfg": cfg, "ops": ops})
+    # the configured maximum alignment survives truncate (the new buffer / mapping is as aligned as the old one)
+    for i, (be, v) in enumerate([(be, v) for be in ["vec", "anon", "file"] for v in [0, 300, 700, 1500, 5000]]):
+        cfg = cfg_for("unify" if be == "file" else "plain", "opt", be, cap=600, flavors=("unsync",))
+        cfg["maxalign"] = 64
+        ops = [AB(3), {"k": "at", "s": 64, "a": 64, "o": False}, {"k": "truncate", "v": v},
+               {"k": "at", "s": 64, "a": 64, "o": False}, {"k": "aa", "s": 16, "a": 16, "n": 5, "o": False}]
+        drivers.append({"id": "trunc-align:%d" % i, "cfg": cfg, "ops": ops})
     return drivers
 
 
